@@ -25,6 +25,7 @@ from mmsa.props import c08
 from mmsa.types import FuncCtx
 
 CLS = 'tbr_iroas.TBRiROAS'
+VOC = ('tails', 'level', 'posterior_threshold', 'periods', 'random_state', 'nsims', 'tail_probability', 'report')
 EXPLANATION = (
     'Column-algebra table of the fixed-cost branch (sympy identity rescale*cost == 1, suffix agreement), RNG-seeding rule over every draw '
     'reachable from summary(), cache-invalidation discipline of TBRiROAS and TBR across fit(), provenance of the scenario predicate, and '
@@ -41,7 +42,7 @@ def r1_fixed_cost(repo, rep, f, ctx):
   n, c = calls[0]
   kws = canon.of(repo).bound(c)
   for k, want in (('tails', 'tails'), ('level', 'level'), ('threshold', 'posterior_threshold')):
-    rep.check(k in kws and norm(kws[k]) == want, 'R1/fixed-cost-algebra', 'response summary called with %s=%s' % (k, want), f.qualname,
+    rep.check_term(k in kws and norm(rd.expand(n, kws[k])[0]) == want, rd.expand(n, kws[k])[0] if k in kws else ast.Constant(value=None), VOC, 'R1/fixed-cost-algebra', 'response summary called with %s=%s' % (k, want), f.qualname,
               '%s=%s' % (k, norm(kws[k]) if k in kws else 'missing'), 'the response summary is requested with %s=%s instead of the caller\'s %s' % (k, norm(kws[k]) if k in kws else 'default', want), f.loc(c))
   resc = kws.get('rescale')
   cost_sym = sym.symbol('cost', True)
@@ -56,8 +57,12 @@ def r1_fixed_cost(repo, rep, f, ctx):
       ok = cname is not None and sym.equal(sym.to_sym(resc, lambda e: cost_sym if norm(e) == cname else None) * cost_sym, 1)
     except Undecided:
       ok = False
-    rep.check(ok, 'R1/fixed-cost-algebra', 'rescale * cost == 1', f.qualname, 'rescale=%s' % norm(resc), 'the response summary is rescaled by `%s`, which is not 1/cost' % norm(resc), f.loc(c))
-    rep.check(cost_txt in ('np.sum(self.tbr_cost.causal_effect(periods))', 'self.tbr_cost.causal_effect(periods).sum()'), 'R1/fixed-cost-algebra',
+    if cname is None and not ok:
+      rep.undecided('R1/fixed-cost-algebra', 'rescale * cost == 1', 'the rescale factor `%s` is not a function of one local naming the cost' % norm(resc)[:60], f.loc(c))
+    else:
+      rep.check(ok, 'R1/fixed-cost-algebra', 'rescale * cost == 1', f.qualname, 'rescale=%s' % norm(resc), 'the response summary is rescaled by `%s`, which is not 1/cost' % norm(resc), f.loc(c))
+    rep.check_term(cost_txt in ('np.sum(self.tbr_cost.causal_effect(periods))', 'self.tbr_cost.causal_effect(periods).sum()', 'self.tbr_cost.causal_effect(periods=periods).sum()',
+                                'np.sum(self.tbr_cost.causal_effect(periods=periods))'), cost_txt, VOC, 'R1/fixed-cost-algebra',
               'cost = total causal effect of the cost model over the analysed periods', f.qualname, 'cost = %s' % cost_txt,
               'the incremental cost is `%s`, not the summed causal effect of the cost model' % cost_txt, f.loc(c))
   else:
@@ -78,12 +83,13 @@ def r1_fixed_cost(repo, rep, f, ctx):
         n_cols += 1
         suf = col.rsplit('_', 1)[1]
         ok = val in ("%s['%s'] * %s" % (rname, suf, cname), "%s * %s['%s']" % (cname, rname, suf))
-        rep.check(ok, 'R1/fixed-cost-algebra', "%s = report['%s'] * cost" % (col, suf), f.qualname, '%s = %s' % (col, val),
+        alts_ = au.alternatives(rd, m, m.ast.value, keep=(rname, cname, 'level', 'tails'))
+        rep.check_term(ok, alts_[0] if not ok else m.ast.value, set(VOC) | {rname, cname}, 'R1/fixed-cost-algebra', "%s = report['%s'] * cost" % (col, suf), f.qualname, '%s = %s' % (col, val),
                   "in the fixed-cost report %s is `%s`, not the iROAS %s bound times the incremental cost" % (col, val, suf), f.loc(m.ast))
       if col == 'incremental_cost':
-        rep.check(val == cname, 'R1/fixed-cost-algebra', 'incremental_cost = cost', f.qualname, '%s = %s' % (col, val), 'incremental_cost is `%s`' % val, f.loc(m.ast))
+        rep.check_term(val == cname, m.ast.value, set(VOC) | {rname, cname}, 'R1/fixed-cost-algebra', 'incremental_cost = cost', f.qualname, '%s = %s' % (col, val), 'incremental_cost is `%s`' % val, f.loc(m.ast))
       if col == 'scenario':
-        rep.check(val == "'fixed'", 'R3/scenario', "the fixed-cost branch is labelled 'fixed'", f.qualname, 'scenario = %s' % val, 'the fixed-cost branch is labelled %s' % val, f.loc(m.ast))
+        rep.check_term(val == "'fixed'", m.ast.value, VOC, 'R3/scenario', "the fixed-cost branch is labelled 'fixed'", f.qualname, 'scenario = %s' % val, 'the fixed-cost branch is labelled %s' % val, f.loc(m.ast))
   rep.floor('incremental-response bound columns of the fixed-cost report', n_cols, 2)
   return n
 
@@ -105,19 +111,30 @@ def r1b_variable_cost(repo, rep, f, ctx):
   if not cols:
     rep.undecided('R1/variable-cost-table', 'TBRiROAS.summary', 'variable-cost report not found', f.loc())
     return
-  keep = ('random_state', 'nsims', 'tail_probability', 'posterior_threshold', 'level', 'tails')
+  opaque_cols = []
+  for n in g.nodes:
+    for e_ in ctx.node_exprs(n):
+      for x_ in ast.walk(e_):
+        if isinstance(x_, ast.Call) and isinstance(x_.func, ast.Attribute) and norm(x_.func.value) == rname and x_.func.attr in ('assign', 'update', 'insert', 'join', 'merge'):
+          opaque_cols.append(norm(x_)[:60])
+    if n.kind == 'stmt' and isinstance(n.ast, ast.Assign):
+      for t_ in n.ast.targets:
+        if isinstance(t_, ast.Subscript) and norm(t_.value) == rname and not isinstance(au.const(t_.slice)[1], str):
+          opaque_cols.append(norm(t_)[:60])
+  keep = ('random_state', 'nsims', 'posterior_threshold', 'level', 'tails')
+  TP = '(1 - level) / tails'
   RESP = 'self.tbr_response.causal_cumulative_distribution(time=-1)'
   COST = 'self.tbr_cost.causal_cumulative_distribution(periods=(self.periods.test,), time=-1)'
   SIMS = '%s.rvs(nsims, random_state=random_state) / %s.rvs(nsims, random_state=random_state)' % (RESP, COST)
   want = {
       'estimate': ['np.mean(%s)' % SIMS, 'np.median(%s)' % SIMS],
-      'lower': ['np.percentile(%s, 100 * tail_probability)' % SIMS],
-      'upper': ['np.percentile(%s, 100 * (1 - tail_probability))' % SIMS, 'np.inf'],
+      'lower': ['np.percentile(%s, 100 * (%s))' % (SIMS, TP)],
+      'upper': ['np.percentile(%s, 100 * (1 - %s))' % (SIMS, TP), 'np.inf'],
       'probability': ['np.mean(%s > posterior_threshold)' % SIMS],
       'incremental_cost': ["%s.kwds['loc']" % COST],
       'incremental_response': ["%s.kwds['loc']" % RESP],
-      'incremental_response_lower': ['%s.ppf(tail_probability)' % RESP],
-      'incremental_response_upper': ['%s.ppf(1 - tail_probability)' % RESP, 'np.inf'],
+      'incremental_response_lower': ['%s.ppf(%s)' % (RESP, TP)],
+      'incremental_response_upper': ['%s.ppf(1 - %s)' % (RESP, TP), 'np.inf'],
       'scenario': ["'variable'"],
   }
   n_ok = 0
@@ -126,10 +143,18 @@ def r1b_variable_cost(repo, rep, f, ctx):
   for col, forms in want.items():
     forms = [cn.ctext(x) for x in forms]
     if col not in cols:
-      rep.violation('R1/variable-cost-table', f.qualname, 'column %s missing' % col, 'the variable-cost report has no %s column' % col, f.loc())
+      elsewhere = [m_ for m_ in g.nodes if m_.kind == 'stmt' and m_.ast is not None and any(
+          (isinstance(x_, ast.Subscript) and isinstance(x_.ctx, ast.Store) and au.const(x_.slice)[1] == col) or
+          (isinstance(x_, ast.Dict) and any(k_ is not None and au.const(k_)[1] == col for k_ in x_.keys)) or
+          (isinstance(x_, ast.keyword) and x_.arg == col) for x_ in ast.walk(m_.ast))]
+      if elsewhere and not opaque_cols:
+        opaque_cols.append('column %s is written at line %s in a form that is not followed' % (col, getattr(elsewhere[0].ast, 'lineno', '?')))
+      if opaque_cols:
+        rep.undecided('R1/variable-cost-table', 'column %s' % col, 'the report is completed in a form that is not followed (%s)' % opaque_cols[0][:60], f.loc())
+      else:
+        rep.violation('R1/variable-cost-table', f.qualname, 'column %s missing' % col, 'the variable-cost report has no %s column' % col, f.loc())
       continue
-    for n in cols[col]:
-      ex_ = rd.expand(n, n.ast.value, depth=12, keep=keep)[0]
+    for n, ex_ in [(n_, a_) for n_ in cols[col] for a_ in au.alternatives(rd, n_, n_.ast.value, keep)]:
       t = cn.text(ex_)
       if isinstance(ex_, ast.IfExp) and norm(ex_.test) in ('tails == 1', 'tails != 1', 'tails == 2', 'tails != 2', '1 == tails'):
         # one statement choosing by the number of tails: every alternative must be an admissible form
@@ -137,13 +162,14 @@ def r1b_variable_cost(repo, rep, f, ctx):
         if all(x in forms for x in leaves):
           t = leaves[0]
       n_ok += 1
-      rep.check(t in forms, 'R1/variable-cost-table', 'variable-cost %s = %s' % (col, t[:60]), f.qualname, '%s = %s' % (col, t[:140]),
+      rep.check_term(t in forms, ex_, keep, 'R1/variable-cost-table', 'variable-cost %s = %s' % (col, t[:60]), f.qualname, '%s = %s' % (col, t[:140]),
                 'in the variable-cost report %s is `%s`; expected %s (ratio of the paired response and cost simulations / quantities of the two posteriors)'
                 % (col, t[:120], ' or '.join(x[:80] for x in forms)), f.loc(n.ast))
   if 'precision' in cols:
     for n in cols['precision']:
       t = norm(n.ast.value)
-      rep.check(re.fullmatch(r"%s\['estimate'\] - \w+" % rname, t) is not None and cn.text(rd.expand(n, n.ast.value, depth=12, keep=keep)[0]).endswith('np.percentile(%s, 100 * tail_probability)' % SIMS),
+      rep.check_term(re.fullmatch(r"%s\['estimate'\] - \w+" % rname, t) is not None and cn.text(rd.expand(n, n.ast.value, depth=12, keep=keep)[0]).endswith('np.percentile(%s, 100 * (%s))' % (SIMS, TP)),
+                rd.expand(n, n.ast.value, depth=12, keep=keep)[0], set(keep) | {rname},
                 'R1/variable-cost-table', 'variable-cost precision = estimate - lower', f.qualname, 'precision = %s' % t[:80], 'precision is `%s`, not estimate - lower' % t[:80], f.loc(n.ast))
   rep.floor('variable-cost report columns checked', n_ok, 9)
 
@@ -180,6 +206,7 @@ def float_order_shape(fo):
   c = FuncCtx.of(fo)
   x = fo.params[0]
   seen = set()
+  open_ = False
   for r in [n for n in c.g.nodes if n.kind == 'return']:
     if r.ast.value is None:
       return False
@@ -189,12 +216,22 @@ def float_order_shape(fo):
       conds |= {z.replace('np.absolute(', 'np.abs(').replace('np.fabs(', 'np.abs(') for z in pathcond.asserted_forms(c.rd.expand(tn, e, keep=(x,))[0], taken)}
     pos = {'np.abs(%s) > 0' % x, 'abs(%s) > 0' % x, '%s != 0' % x}
     nonpos = {'np.abs(%s) <= 0' % x, 'abs(%s) <= 0' % x, 'np.abs(%s) == 0' % x, '%s == 0' % x}
-    if t in ('np.floor(np.log10(np.abs(%s)))' % x, 'np.floor(np.log10(abs(%s)))' % x, 'math.floor(math.log10(abs(%s)))' % x) and conds & pos:
+    is_log = t in ('np.floor(np.log10(np.abs(%s)))' % x, 'np.floor(np.log10(abs(%s)))' % x, 'math.floor(math.log10(abs(%s)))' % x)
+    is_inf = t in ('-np.inf', "-float('inf')", '-math.inf', "float('-inf')")
+    if is_log and conds & pos:
       seen.add('log')
-    elif t in ('-np.inf', "-float('inf')", '-math.inf') and conds & nonpos:
+    elif is_inf and conds & nonpos:
       seen.add('inf')
+    elif (is_log and conds & nonpos) or (is_inf and conds & pos):
+      return False          # the two cases are swapped
+    elif (is_log or is_inf):
+      open_ = True          # right value, guard not understood
+    elif au.aliens(c.rd.expand(r, r.ast.value, keep=(x,))[0], {x}):
+      open_ = True          # the returned value reads unresolved names
     else:
-      return False
+      return False          # a closed term over x that is neither floor(log10|x|) nor -inf
+  if open_:
+    return None
   return seen == {'log', 'inf'}
 
 
@@ -228,13 +265,14 @@ def r3_scenario(repo, rep):
   pre = "%s.loc[%s == self.periods.pre][self.df_names.cost]" % (A, per)
   tst = "%s.loc[%s == self.periods.test].loc[self.groups.control][self.df_names.cost]" % (A, per)
   want = 'utils.float_order(sum(%s) + sum(%s)) < -10' % (pre, tst)
-  rep.check(t == want, 'R3/scenario', 'fixed-cost iff order of magnitude of (pre-period costs + control test-period costs) < -10', f.qualname, t[:200],
+  rep.check_term(t == want, t, (), 'R3/scenario', 'fixed-cost iff order of magnitude of (pre-period costs + control test-period costs) < -10', f.qualname, t[:200],
             'the scenario predicate is `%s`: it does not test exactly the pre-period costs of all groups plus the test-period costs of the control group' % t[:180], f.loc())
   fo = repo.func('utils.float_order')
   rep.fn(fo)
   ok_fo = float_order_shape(fo)
-  rep.check(ok_fo, 'R3/scenario', 'float_order = floor(log10|x|), -inf at 0', fo.qualname,
-            'float_order body', 'float_order no longer computes floor(log10(|x|)) with -inf for 0', fo.loc(), nontrivial=False)
+  rep.check3(ok_fo, 'R3/scenario', 'float_order = floor(log10|x|), -inf at 0', fo.qualname,
+             'float_order body', 'float_order no longer computes floor(log10(|x|)) with -inf for 0', fo.loc(), nontrivial=False,
+             why_open='a return of float_order (or the test guarding it) is not in a recognised form')
 
 
 def r4_bounds(repo, rep, f, ctx):
@@ -247,13 +285,50 @@ def r4_bounds(repo, rep, f, ctx):
       for c in au.calls_in(n.ast):
         fn = norm(c.func)
         tgt = norm(n.ast.targets[0]) if isinstance(n.ast, ast.Assign) else ''
+        # the role (lower / upper bound) is that of the nearest naming context: dictionary key, keyword, assignment target
+        cur, par, role = c, getattr(c, '_parent', None), None
+        while par is not None and role is None:
+          if isinstance(par, ast.Dict):
+            for k_, v_ in zip(par.keys, par.values):
+              if v_ is cur and k_ is not None and isinstance(au.const(k_)[1], str):
+                role = au.const(k_)[1]
+          elif isinstance(par, ast.keyword) and par.arg:
+            role = par.arg
+          elif isinstance(par, ast.stmt):
+            break
+          cur, par = par, getattr(par, '_parent', None)
+        role = role or tgt
+        m_sub = re.fullmatch(r"\w+\['(\w+)'\]", role or '')
+        if m_sub:
+          role = m_sub.group(1)
+        # a local that is later stored into a report column takes the column's name (the API-level role)
+        if re.fullmatch(r'\w+', role or ''):
+          for m_ in g.nodes:
+            if m_.kind == 'stmt' and isinstance(m_.ast, ast.Assign) and isinstance(m_.ast.value, ast.Name) and m_.ast.value.id == role \
+                and isinstance(m_.ast.targets[0], ast.Subscript) and isinstance(au.const(m_.ast.targets[0].slice)[1], str):
+              role = au.const(m_.ast.targets[0].slice)[1]
+              break
+            hit = None
+            for d_ in ast.walk(m_.ast) if m_.ast is not None else ():
+              if isinstance(d_, ast.keyword) and d_.arg and isinstance(d_.value, ast.Name) and d_.value.id == role:
+                hit = d_.arg
+              if isinstance(d_, ast.Dict):
+                for k_, v_ in zip(d_.keys, d_.values):
+                  if isinstance(v_, ast.Name) and v_.id == role and k_ is not None and isinstance(au.const(k_)[1], str):
+                    hit = au.const(k_)[1]
+            if hit:
+              role = hit
+              break
+        if 'upper' not in role and 'lower' not in role:
+          continue          # a quantile whose role is not named here (a helper's argument, an element of a tuple): not a site of this rule
+        tgt = role
         if fn == 'np.percentile' and len(c.args) == 2:
           kind = 'upper-pct' if 'upper' in tgt else 'lower-pct'
-          what = 'variable-cost %s percentile' % ('upper' if 'upper' in tgt else 'lower') if 'iroas' in norm(c.args[0]) else '%s percentile of %s' % ('upper' if 'upper' in tgt else 'lower', norm(c.args[0]))
+          what = 'percentile for %s' % role
           out.append((kind, c.args[1], n, what))
         elif isinstance(c.func, ast.Attribute) and c.func.attr == 'ppf' and c.args:
           kind = 'upper' if 'upper' in tgt else 'lower'
-          out.append((kind, c.args[0], n, '%s quantile of %s' % (kind, norm(c.func.value))))
+          out.append((kind, c.args[0], n, 'quantile for %s' % role))
     return out
   n = tbrrules.quantile_order(rep, f, 'R4/quantile-order', tbrrules.Iv(0.0, 1.0, True, True), sites)
   rep.floor('quantile-order obligations of TBRiROAS.summary', n, 6)
@@ -284,6 +359,8 @@ def run(repo, rep, tier):
   r4_bounds(repo, rep, f, ctx)
   # the branch is chosen by the predicate
   tests = [n for n in ctx.g.nodes if n.kind == 'test' and norm(au.strip_not(ctx.rd.expand(n, n.expr)[0])[0]) == 'self._is_fixed_cost_scenario()']
-  rep.check(len(tests) == 1, 'R3/scenario', 'the report branch is chosen by _is_fixed_cost_scenario()', f.qualname, '; '.join(norm(n.expr) for n in tests),
-            'the fixed/variable branch is not selected by _is_fixed_cost_scenario()', f.loc())
+  called = any(norm(c_.func) == 'self._is_fixed_cost_scenario' for c_ in au.calls_in(f.node))
+  rep.check3(True if tests else (None if called else False), 'R3/scenario', 'the report branch is chosen by _is_fixed_cost_scenario()', f.qualname, '; '.join(norm(n.expr) for n in tests),
+             'the fixed/variable branch is not selected by _is_fixed_cost_scenario()', f.loc(),
+             why_open='_is_fixed_cost_scenario() is called, but no branch tests its result in a recognised form')
   rep.assume('level in (0, 1) (documented), tails in {1, 2} (guard)')
